@@ -287,7 +287,7 @@ class Verdict:
             if key in seen:
                 continue
             seen.add(key)
-            if len(seen) > 25:
+            if len(seen) > int(os.environ.get('VERIF_MAX_REPORT', '25')):
                 break
             h = hashlib.sha1(key.encode()).hexdigest()[:10]
             path = REPLAYS / f"{self.prop}-{h}.json"
